@@ -5,6 +5,7 @@ import MdwModel.Model.Maps
 import MdwModel.Model.Stack
 import MdwModel.Model.Gather
 import MdwModel.Model.System
+import MdwModel.Model.CommName
 import MdwModel.Generated.Source
 namespace Mdw.Drv.LiveProps
 open Mdw Mdw.Drv Mdw.Drv.Live
@@ -717,8 +718,6 @@ def runLive20 (kv : List (String × String)) : IO Res := do
   | none => pure ()
   return .ok tags (some s!"{lc.threads.length}/{principal.isSome}/{tags.eraseDups}")
 
-def isTrailWs (b : UInt8) : Bool := b == 32 || (9 ≤ b && b ≤ 13)
-
 /-- C15 on a real dump: the thread-names stream pairs every listed thread that has a readable name with
     that name (the kernel's comm, trailing white space trimmed), once, and names nothing else -/
 def runLive15 (kv : List (String × String)) : IO Res := do
@@ -741,7 +740,7 @@ def runLive15 (kv : List (String × String)) : IO Res := do
   for (tid, name) in recs do
     if !lc.threads.any (fun t => t.tid == tid) then return .propfail s!"a name is given for {tid}, which is not in the thread list" tags
     let some (some comm) := (comms.find? (fun c => c.1 == tid)).map (·.2) | continue
-    let trimmed := (comm.reverse.dropWhile isTrailWs).reverse
+    let trimmed := nameOfComm comm
     match String.fromUTF8? (ByteArray.mk trimmed.toArray) with
     | some str =>
       if name != encode16 str.toList then
@@ -751,7 +750,7 @@ def runLive15 (kv : List (String × String)) : IO Res := do
   -- every listed thread with a readable (UTF-8) comm is named
   for t in lc.threads do
     let some (some comm) := (comms.find? (fun c => c.1 == t.tid)).map (·.2) | continue
-    let trimmed := (comm.reverse.dropWhile isTrailWs).reverse
+    let trimmed := nameOfComm comm
     if (String.fromUTF8? (ByteArray.mk trimmed.toArray)).isSome && !recs.any (fun r => r.1 == t.tid) then
       return .propfail s!"listed thread {t.tid} (comm {hex trimmed}) has no name record" tags
   -- order: as in the thread list
